@@ -489,12 +489,81 @@ pub fn test(r: &RawMacros, ev: &mut Ev, opts: &ModelOpts) -> Result<(), Violatio
     }
 }
 
+/// Deterministic legs with many calls: every call gives its resources back, whatever it expands to.
+pub fn many_call_programs() -> Vec<(String, Vec<Ln>)> {
+    let dw = |e: E| Ln::st(St::Data(DKind::Dw, vec![DItem::Ex(e)]));
+    let call = |n: &str, args: Vec<Opnd>| Ln::st(St::Call(n.to_string(), args));
+    let mut out = vec![];
+    for n in [1usize, 63, 64, 65, 130, 1000] {
+        // calls that expand to nothing, then ordinary ones
+        let mut p = vec![Ln::st(St::MacroDef("empty_m".into(), vec![])), Ln::st(St::MacroDef("real_m".into(), vec![dw(E::Arg(0)), Ln::st(St::Ins("mov".into(), vec![Opnd::Arg(1), Opnd::Reg(2)]))]))];
+        for _ in 0..n {
+            p.push(call("empty_m", vec![]));
+        }
+        p.push(call("real_m", vec![Opnd::Ex(E::Num(77)), Opnd::Reg(20)]));
+        p.push(call("REAL_M", vec![Opnd::Ex(E::bin(BinOp::Mul, E::Num(3), E::Par(Box::new(E::bin(BinOp::Add, E::Num(1), E::Num(2)))))), Opnd::Reg(21)]));
+        out.push((format!("{}-empty-expansions-then-a-call", n), p));
+        // calls whose conditional body assembles nothing
+        let mut p = vec![
+            Ln::st(St::MacroDef("cond_m".into(), vec![Ln::st(St::If(vec![(Cond::Expr(E::Arg(0)), vec![Ln::st(St::Ins("nop".into(), vec![]))])], None))])),
+            Ln::st(St::MacroDef("real_m".into(), vec![dw(E::Arg(0))])),
+        ];
+        for i in 0..n {
+            p.push(call("cond_m", vec![Opnd::Ex(E::Num(if i % 50 == 49 { 1 } else { 0 }))]));
+        }
+        p.push(call("real_m", vec![Opnd::Ex(E::Num(99))]));
+        out.push((format!("{}-calls-with-untaken-conditional-body", n), p));
+        // calls that only switch segments and reserve data
+        let mut p = vec![
+            Ln::st(St::MacroDef("res_m".into(), vec![Ln::st(St::Seg(Seg::Data)), Ln::st(St::Byte(E::Arg(0))), Ln::st(St::Seg(Seg::Code))])),
+            Ln::st(St::MacroDef("real_m".into(), vec![dw(E::Arg(0))])),
+        ];
+        for i in 0..n.min(200) {
+            p.push(call("res_m", vec![Opnd::Ex(E::Num(1 + (i % 3) as i64))]));
+            if i % 7 == 0 {
+                p.push(call("real_m", vec![Opnd::Ex(E::Num(i as i64))]));
+            }
+        }
+        p.push(call("real_m", vec![Opnd::Ex(E::Num(99))]));
+        out.push((format!("{}-calls-that-only-reserve-data", n.min(200)), p));
+    }
+    // nesting chains of legal depth, called repeatedly
+    for depth in [2usize, 5, 10, 20] {
+        let mut p = vec![Ln::st(St::MacroDef("c0".into(), vec![dw(E::bin(BinOp::Add, E::Arg(0), E::Num(1)))]))];
+        for d in 1..=depth {
+            p.push(Ln::st(St::MacroDef(format!("c{}", d), vec![call(&format!("c{}", d - 1), vec![Opnd::Ex(E::bin(BinOp::Add, E::Arg(0), E::Num(d as i64)))]), Ln::st(St::Ins("nop".into(), vec![]))])));
+        }
+        for i in 0..120 {
+            p.push(call(&format!("C{}", depth), vec![Opnd::Ex(E::Num(i))]));
+        }
+        out.push((format!("chain-of-depth-{}-called-120-times", depth), p));
+    }
+    out
+}
+
 pub fn run(ctx: &Ctx) -> Result<Ev, String> {
     let opts = ModelOpts { devices: vec![] };
+    let mut fixed = Ev::new("C09");
+    for (tag, prog) in many_call_programs() {
+        fixed.eval();
+        fixed.class("many-calls-leg");
+        let text = render(&prog, Style::CANON).text;
+        fixed.nt(fp(&text));
+        match model::assemble(&prog, &opts).0 {
+            Expect::Ok(img) => {
+                let chk = Check::Image { src: text.clone(), code: Some(img.code), eeprom: Some(img.eeprom), ram_filling: Some(img.ram_filling), sizes: None, messages: None };
+                if let Err(why) = chk.eval() {
+                    fixed.violation(Violation { sig: format!("c09:many-calls:{}", if why.contains("Err(") { "rejected" } else { "differs" }), what: format!("[{}] {}", tag, why), replay: chk.to_json() });
+                }
+            }
+            other => return Err(format!("C09 many-calls leg {} not valid for the model: {:?}", tag, other)),
+        }
+    }
     let shards = 32usize;
     let per = (if ctx.thorough { 400_000 } else { 20_000 } / shards) as u32;
     let seed = ctx.seed;
-    let total = par::run_shards("C09", shards, |s| par::prop_shard("C09", seed, s, per, &raw_macros(), |c, ev| test(c, ev, &opts)));
+    let mut total = par::run_shards("C09", shards, |s| par::prop_shard("C09", seed, s, per, &raw_macros(), |c, ev| test(c, ev, &opts)));
+    total.merge(fixed);
     if total.has_violation() {
         return Ok(total);
     }
